@@ -119,8 +119,12 @@ class ServicingPoolingTrip(VehicleState):
                 SimulationStateError(f"request {first_req_id} not found; context: {context}"),
                 None,
             )
-        elif not vehicle.vehicle_state.vehicle_state_type == VehicleStateType.DISPATCH_POOLING_TRIP:
-            # the only supported transition into ServicingPoolingTrip comes from DispatchTrip
+        elif vehicle.vehicle_state.vehicle_state_type not in (
+            VehicleStateType.DISPATCH_TRIP,
+            VehicleStateType.DISPATCH_POOLING_TRIP,
+        ):
+            # the only supported transitions into ServicingPoolingTrip come from DispatchTrip (a request
+            # that allows pooling, reached by a vehicle whose driver allows it) and DispatchPoolingTrip
             prev_state = vehicle.vehicle_state.__class__.__name__
             msg = f"ServicingPoolingTrip called for vehicle {vehicle.id} but previous state ({prev_state}) is not DispatchTrip as required"
             error = SimulationStateError(msg)
